@@ -257,6 +257,22 @@ fn run_program(seed: u64, hid: u64, maxops: usize) {
             if !same {
                 line!("X forwarding_differs_from_std hash={} {} {}", hb, hs, hstr);
             }
+            // extend by iterators whose size hint is honest but loose (a huge or unknown upper bound, few
+            // items): like std, nothing but the items decides the outcome
+            {
+                let (mut bc, mut sc) = (b.clone(), s.clone());
+                let mut k = 0;
+                bc.extend(std::iter::repeat('é').take(usize::MAX).take_while(|_| { k += 1; k <= 3 }));
+                let mut k = 0;
+                sc.extend(std::iter::repeat('é').take(usize::MAX).take_while(|_| { k += 1; k <= 3 }));
+                bc.extend("a€b𝄞c".chars().filter(|c| !c.is_ascii()));
+                sc.extend("a€b𝄞c".chars().filter(|c| !c.is_ascii()));
+                bc.extend(['x', 'y'].iter());
+                sc.extend(['x', 'y'].iter());
+                bc.extend((0..usize::MAX).map(|_| 'z').skip_while(|_| false).take_while(|_| false));
+                sc.extend((0..usize::MAX).map(|_| 'z').skip_while(|_| false).take_while(|_| false));
+                if bc.as_bytes() != sc.as_bytes() { line!("X forwarding_extend_loose_hints bump={} std={}", hex(bc.as_bytes()), hex(sc.as_bytes())); }
+            }
             // operators: + and += with a &str, indexing by every range form (also mutably), BorrowMut
             {
                 let (mut bc, mut sc) = (b.clone(), s.clone());
